@@ -700,6 +700,11 @@ var libFn = regexp.MustCompile(`github\.com/vbauerster/mpb/v8[^\s(]*\.[A-Za-z0-9
 
 func normCrash(head, stderr string) string {
 	fn := libFn.FindString(stderr)
+	if i := strings.IndexByte(fn, '('); i > 0 && !strings.HasPrefix(fn[i:], "(*") {
+		fn = fn[:i] // drop the argument list (pointer values differ from run to run)
+	} else if j := strings.LastIndex(fn, "(0x"); j > 0 {
+		fn = fn[:j]
+	}
 	h := head
 	if len(h) > 80 {
 		h = h[:80]
